@@ -489,7 +489,7 @@ Proof.
   { unfold sa. destruct Hst as [H|H]; rewrite H; cbn; unfold sending_ok; cbn; rewrite ?H; auto 10. }
   destruct Hsa as (Hs & Er & En & Eso & Ew & Ec).
   assert (Hja : journal_ok sa) by (unfold journal_ok; rewrite Er, En, Eso; exact Hj).
-  rewrite <- Er, <- En in Hok, Hcov, Hb.
+  rewrite <- Er in Hok. rewrite <- En in Hcov, Hb.
   destruct (body_ok f sa b e0 Hs Hja Hb He0 Hcov Hok) as (W & s' & E & Hw & Hch & Hn & Hso & Hr & Hc).
   rewrite E. cbn [fst]. rewrite Er, En, ?Ew in *. clear E.
   destruct Hj as (HJ & Hsout & Hmax). rewrite Forall_forall in HJ.
@@ -506,4 +506,393 @@ Proof.
     apply chain_empty in Hch. subst W. split; [reflexivity|].
     intros r. rewrite Hr, app_nil_r, filter_In. split; [tauto|].
     intros Hin. split; [exact Hin|]. specialize (HJ _ Hin). lia.
+Qed.
+
+(* ------------------------------------------------------------------ known-finding class predicates
+   (decidable from the request, the replay filter and the pre-state; mirrored by harness/c06.py) *)
+
+Definition eff_end (e0 : Z) : Z := if e0 =? 0 then sys_maxsize else e0.
+Definition in_req_range (b e : Z) (r : row) : bool := (b <=? r_seq r) && (r_seq r <=? e).
+
+(* tag 7 / 16 absent, not an int() literal, or outside 64 bits *)
+Definition k_unparsable (bs es : option str) : bool :=
+  match bs, es with
+  | Some bs, Some es =>
+      match py_int bs, py_int es with
+      | Some b, Some e0 => negb (fits_int64 b && fits_int64 (eff_end e0))
+      | _, _ => true
+      end
+  | _, _ => true
+  end.
+Definition k_begin_nonpositive (b : Z) : bool := b <=? 0.
+Definition k_begin_beyond (s : st) (b : Z) : bool := nout s <? b.
+(* EndSeqNo bounded below the last sent number *)
+Definition k_bounded_end (s : st) (b e0 : Z) : bool := negb (e0 =? 0) && (e0 <? nout s - 1) && (b <? nout s).
+(* a replayed message in range is the PossDup copy left by an earlier resend *)
+Definition k_leftover_copy (f : row -> bool) (s : st) (b e0 : Z) : bool :=
+  existsb (fun r => in_req_range b (eff_end e0) r && replayable f r && negb (clean r)) (rows s).
+(* a replayed message in range whose predecessor number (still in range) is missing from the journal *)
+Definition k_hole_before_replayed (f : row -> bool) (s : st) (b e0 : Z) : bool :=
+  existsb (fun r => in_req_range b (eff_end e0) r && replayable f r && (b <? r_seq r)
+                    && negb (has_key (r_seq r - 1) (rows s))) (rows s).
+
+(* strictly ascending from p *)
+Fixpoint asc (p : Z) (rs : list row) : Prop :=
+  match rs with
+  | [] => True
+  | r :: rest => p <= r_seq r /\ asc (r_seq r + 1) rest
+  end.
+
+Lemma insert_asc y : forall l p, asc p l -> p <= r_seq y -> (forall x, In x l -> r_seq x <> r_seq y) ->
+  asc p (insert_by_seq y l).
+Proof.
+  induction l as [|x l IH]; intros p Ha Hp Hne; cbn; [auto|].
+  destruct Ha as [Hx Ha]. pose proof (Hne x (or_introl eq_refl)) as Hxy.
+  destruct (r_seq y <=? r_seq x) eqn:E; cbn.
+  - repeat split; try lia. exact Ha.
+  - split; [exact Hx|]. apply IH; [exact Ha|lia|]. intros z Hz. apply Hne. right; exact Hz.
+Qed.
+
+Lemma sort_asc : forall l p, NoDup (map r_seq l) -> (forall r, In r l -> p <= r_seq r) -> asc p (sort_by_seq l).
+Proof.
+  induction l as [|y l IH]; intros p Hnd Hlb; [cbn; auto|].
+  change (sort_by_seq (y :: l)) with (insert_by_seq y (sort_by_seq l)).
+  cbn [map] in Hnd. inversion Hnd as [|? ? Hnotin Hnd']; subst.
+  apply insert_asc.
+  - apply IH; [exact Hnd'|]. intros r Hr. apply Hlb. right; exact Hr.
+  - apply Hlb. left; reflexivity.
+  - intros x Hx Heq. rewrite in_sort in Hx. apply Hnotin. rewrite <- Heq. apply in_map. exact Hx.
+Qed.
+
+Lemma NoDup_map_filter {A B} (g : A -> B) (p : A -> bool) l : NoDup (map g l) -> NoDup (map g (filter p l)).
+Proof.
+  induction l as [|x l IH]; cbn; intros H; [constructor|].
+  inversion H as [|? ? Hn Hd]; subst. destruct (p x); cbn; [constructor|]; auto.
+  intros Hin. apply Hn. apply in_map_iff in Hin as (y & E & Hy). apply filter_In in Hy as [Hy _].
+  rewrite <- E. apply in_map. exact Hy.
+Qed.
+
+Lemma recover_asc b e J : NoDup (map r_seq J) -> asc b (recover b e J).
+Proof.
+  intros H. unfold recover. apply sort_asc; [apply NoDup_map_filter; exact H|].
+  intros r Hr. apply filter_In in Hr as [_ Hr]. lia.
+Qed.
+
+Lemma asc_lb : forall rs p, asc p rs -> forall r, In r rs -> p <= r_seq r.
+Proof.
+  induction rs as [|x rs IH]; cbn; intros p Ha r Hin; [tauto|].
+  destruct Ha as [H1 H2]. destruct Hin as [<-|Hin]; [lia|]. specialize (IH _ H2 _ Hin). lia.
+Qed.
+
+Lemma asc_rows_ok f : forall rs p, asc p rs ->
+  (forall r, In r rs -> replayable f r = true -> clean r = true) ->
+  (forall r, In r rs -> replayable f r = true -> r_seq r = p \/ exists x, In x rs /\ r_seq x = r_seq r - 1) ->
+  rows_ok f p rs.
+Proof.
+  induction rs as [|r rest IH]; intros p Ha Hcl Hpred; cbn; [auto|].
+  destruct Ha as [Hp Ha]. pose proof (asc_lb _ _ Ha) as Hlb. split; [exact Hp|]. split.
+  - intros Hr. split; [|apply Hcl; [left; reflexivity|exact Hr]].
+    destruct (Hpred r (or_introl eq_refl) Hr) as [E|(x & [<-|Hx] & Ex)]; [exact E|lia|].
+    specialize (Hlb _ Hx). lia.
+  - apply IH; [exact Ha|intros x Hx; apply Hcl; right; exact Hx|].
+    intros x Hx Hr. specialize (Hlb _ Hx).
+    destruct (Hpred x (or_intror Hx) Hr) as [E|(y & [<-|Hy] & Ey)]; [lia|left; lia|].
+    right. exists y. split; assumption.
+Qed.
+
+Lemma existsb_false {A} (p : A -> bool) l : existsb p l = false -> forall x, In x l -> p x = false.
+Proof.
+  intros H x Hx. apply not_true_is_false. intros Hp.
+  assert (existsb p l = true) by (apply existsb_exists; eauto). congruence.
+Qed.
+
+(* outside the two journal classes the recovered rows are what the loop handles correctly *)
+Lemma classes_rows_ok f s b e0 :
+  NoDup (map r_seq (rows s)) ->
+  k_leftover_copy f s b e0 = false -> k_hole_before_replayed f s b e0 = false ->
+  rows_ok f b (recover b (eff_end e0) (rows s)).
+Proof.
+  intros Hnd Hl Hh. apply asc_rows_ok; [apply recover_asc; exact Hnd| |].
+  - intros r Hr Hrep. apply in_recover in Hr as [Hin Hrg].
+    pose proof (existsb_false _ _ Hl r Hin) as H. cbn beta in H. rewrite Hrep in H.
+    unfold in_req_range in H. destruct (clean r); [reflexivity|]. cbn in H. lia.
+  - intros r Hr Hrep. apply in_recover in Hr as [Hin Hrg].
+    pose proof (existsb_false _ _ Hh r Hin) as H. cbn beta in H. rewrite Hrep in H.
+    unfold in_req_range in H.
+    destruct (b <? r_seq r) eqn:Hb; [|left; lia]. right.
+    destruct (has_key (r_seq r - 1) (rows s)) eqn:Hk; [|cbn in H; lia].
+    unfold has_key in Hk. apply existsb_exists in Hk as (x & Hx & Ex).
+    exists x. split; [|lia]. apply in_recover. split; [exact Hx|lia].
+Qed.
+
+(* the partial theorem with exactly the negated class predicates as hypotheses *)
+Lemma resend_partial_classes f s bs es b e0 :
+  py_int bs = Some b -> py_int es = Some e0 ->
+  (cstate s = ST_ACTIVE \/ cstate s = ST_AWAITING) ->
+  journal_ok s -> NoDup (map r_seq (rows s)) ->
+  k_unparsable (Some bs) (Some es) = false ->
+  k_begin_nonpositive b = false -> k_begin_beyond s b = false -> k_bounded_end s b e0 = false ->
+  k_leftover_copy f s b e0 = false -> k_hole_before_replayed f s b e0 = false ->
+  resend_correct f s (Some bs) (Some es).
+Proof.
+  intros Hpb Hpe Hst Hj Hnd Hu Hk1 Hk2 Hk3 Hk4 Hk5.
+  unfold k_unparsable in Hu. rewrite Hpb, Hpe in Hu. apply negb_false_iff, andb_true_iff in Hu as [Hfb Hfe].
+  unfold k_begin_nonpositive in Hk1. unfold k_begin_beyond in Hk2. unfold k_bounded_end in Hk3.
+  apply (resend_partial f s bs es b e0 Hpb Hpe Hst Hj); try lia.
+  - unfold eff_end in Hfe. destruct (e0 =? 0) eqn:E; [|exact Hfe].
+    replace e0 with 0 by lia. reflexivity.
+  - exact (classes_rows_ok f s b e0 Hnd Hk4 Hk5).
+Qed.
+
+(* ------------------------------------------------------------------ pristine journals *)
+
+(* numbers k, k+1, ... in rowid order: nothing missing *)
+Fixpoint contig (k : Z) (l : list row) : Prop :=
+  match l with
+  | [] => True
+  | r :: t => r_seq r = k /\ contig (k + 1) t
+  end.
+
+(* a journal of original sends: numbers 1..n contiguous (a suffix below next_num_out may be
+   missing), no PossDup copies, rows as the encoder writes them, stored counter in step *)
+Definition pristine (s : st) : Prop :=
+  contig 1 (rows s)
+  /\ Forall (fun r => clean r = true /\ codec_row r = true) (rows s)
+  /\ Z.of_nat (length (rows s)) < nout s /\ sout s = nout s - 1 /\ nout s <= INT64_MAX.
+
+Lemma contig_seqs : forall l k, contig k l -> forall r, In r l -> k <= r_seq r < k + Z.of_nat (length l).
+Proof.
+  induction l as [|x l IH]; intros k H r Hin; [destruct Hin|].
+  destruct H as [E H]. cbn [length]. destruct Hin as [<-|Hin]; [lia|]. specialize (IH _ H _ Hin). lia.
+Qed.
+
+Lemma contig_has : forall l k, contig k l -> forall n, k <= n < k + Z.of_nat (length l) -> has_key n l = true.
+Proof.
+  induction l as [|x l IH]; intros k H n Hn; cbn [length] in Hn; [lia|].
+  destruct H as [E H]. unfold has_key. cbn [existsb]. destruct (r_seq x =? n) eqn:Ex; [reflexivity|].
+  apply (IH _ H). lia.
+Qed.
+
+Lemma contig_nodup : forall l k, contig k l -> NoDup (map r_seq l).
+Proof.
+  induction l as [|x l IH]; intros k H; cbn; [constructor|]. destruct H as [E H].
+  constructor; [|exact (IH _ H)]. intros Hin. apply in_map_iff in Hin as (y & Ey & Hy).
+  pose proof (contig_seqs _ _ H _ Hy). lia.
+Qed.
+
+Lemma existsb_all_false {A} (p : A -> bool) l : (forall x, In x l -> p x = false) -> existsb p l = false.
+Proof.
+  intros H. apply not_true_is_false. intros Hx. apply existsb_exists in Hx as (x & Hin & Hp).
+  rewrite (H _ Hin) in Hp. discriminate.
+Qed.
+
+Lemma pristine_partial f s bs es b :
+  py_int bs = Some b -> py_int es = Some 0 ->
+  (cstate s = ST_ACTIVE \/ cstate s = ST_AWAITING) -> pristine s -> 1 <= b <= nout s ->
+  resend_correct f s (Some bs) (Some es).
+Proof.
+  intros Hpb Hpe Hst (Hc & Hcl & Hlen & Hso & Hmax) Hb. rewrite Forall_forall in Hcl.
+  pose proof (contig_seqs _ _ Hc) as Hseqs.
+  apply (resend_partial_classes f s bs es b 0 Hpb Hpe Hst).
+  - split; [|split; assumption]. apply Forall_forall. intros r Hr.
+    specialize (Hseqs _ Hr). destruct (Hcl _ Hr). split; [lia|assumption].
+  - exact (contig_nodup _ _ Hc).
+  - unfold k_unparsable. rewrite Hpb, Hpe.
+    replace (fits_int64 b) with true by (unfold fits_int64, INT64_MIN, INT64_MAX in *; lia). reflexivity.
+  - unfold k_begin_nonpositive. lia.
+  - unfold k_begin_beyond. lia.
+  - reflexivity.
+  - apply existsb_all_false. intros r Hr. destruct (Hcl _ Hr) as [-> _]. cbn. apply andb_false_r.
+  - apply existsb_all_false. intros r Hr. specialize (Hseqs _ Hr).
+    destruct (b <? r_seq r) eqn:E; [|rewrite andb_false_r; reflexivity].
+    rewrite (contig_has _ _ Hc) by lia. apply andb_false_r.
+Qed.
+
+(* frames written by send_msg are rows as the encoder writes them: the hypothesis codec_row of
+   journal_ok / pristine is an invariant of journals written by the model's send_msg *)
+Lemma forallb_filter {A} (p : A -> bool) l : forallb p (filter p l) = true.
+Proof. induction l as [|x l IH]; cbn; auto. destruct (p x) eqn:E; cbn; rewrite ?E; auto. Qed.
+
+Lemma gates_rows m s s1 : send_gates m s = Ok s1 -> rows s1 = rows s.
+Proof.
+  unfold send_gates.
+  repeat match goal with |- context [if ?c then _ else _] => destruct c end; intros [= <-]; reflexivity.
+Qed.
+
+Lemma send_msg_frame_codec_row m s s' :
+  send_msg m s = Ok s' -> exists fr, rows s' = rows s ++ [fr] /\ codec_row fr = true.
+Proof.
+  unfold send_msg. destruct (send_gates m s) as [s1|] eqn:Hg; [|discriminate].
+  apply gates_rows in Hg.
+  destruct (str_eqb (m_type m) MT_TESTREQUEST && negb (testreq_pending s1)); [discriminate|].
+  destruct (select_seq m s1) as [[n no]|]; [|discriminate].
+  unfold persist. cbn [r_seq rows]. destruct (has_key n (rows s1)) eqn:Hk; [discriminate|].
+  intros [= <-]. cbn [rows]. rewrite Hg. eexists. split; [reflexivity|].
+  unfold codec_row. cbn [r_body]. apply forallb_filter.
+Qed.
+
+(* ------------------------------------------------------------------ witnesses of the known findings *)
+
+Definition w_logon : row := mkRow 1 [65%N] (time_str 1) [([57; 56]%N, [48%N]); ([49; 48; 56]%N, [51; 48]%N)].
+Definition w_app (n : Z) : row := mkRow n [68%N] (time_str n) [([49; 49]%N, 99%N :: z_to_dec n); ([53; 53]%N, [83; 89; 77]%N)].
+Definition w_hb (n : Z) : row := mkRow n [48%N] (time_str n) [].
+Definition w_state (st0 nxt : Z) (rs : list row) : st := mkSt st0 false false nxt (nxt - 1) (nxt - 1) rs [] [] [].
+Definition w_all (r : row) : bool := true.
+Definition dec (z : Z) : option str := Some (z_to_dec z).
+
+(* the six class predicates of a request, as a tuple *)
+Definition classes_of (f : row -> bool) (s : st) (bs es : option str) (b e0 : Z) :=
+  (k_unparsable bs es, k_begin_nonpositive b, k_begin_beyond s b, k_bounded_end s b e0,
+   k_leftover_copy f s b e0, k_hole_before_replayed f s b e0).
+
+(* D12a: [Logon, D2, D3, D4], next 5, ResendRequest(2, 2): D2 is retransmitted, then GapFill(3 -> 5):
+   numbers 3 and 4 were not asked for, and row 4 is gone from the journal *)
+Definition w_bounded := w_state ST_ACTIVE 5 [w_logon; w_app 2; w_app 3; w_app 4].
+Lemma bounded_end_refuted :
+  pristine w_bounded
+  /\ classes_of w_all w_bounded (dec 2) (dec 2) 2 2 = (false, false, false, true, false, false)
+  /\ ~ resend_correct w_all w_bounded (dec 2) (dec 2).
+Proof.
+  split; [|split; [vm_compute; reflexivity|]].
+  - unfold pristine. repeat split; try (vm_compute; congruence). repeat constructor.
+  - intros (W & _ & Hr & _).
+    assert (E : requested_range w_bounded (dec 2) (dec 2) = Some (2, 3)) by (vm_compute; reflexivity).
+    rewrite E in Hr. destruct Hr as [_ Hout].
+    destruct (Hout (w_app 4) ltac:(right; vm_compute; congruence)) as [_ Hback].
+    assert (Hin : In (w_app 4) (rows w_bounded)) by (cbn; auto).
+    specialize (Hback Hin). vm_compute in Hback.
+    repeat (destruct Hback as [Hback|Hback]; [discriminate|]). exact Hback.
+Qed.
+
+(* D12b: the journal left by a first, complete ResendRequest(2, 0) over [Logon, D2, D3] holds the
+   PossDup copies of 2 and 3; the same request again aborts on the first copy (DuplicatedTagError):
+   nothing is sent, next_num_out stays rewound to 2, rows 2 and 3 are gone, the state is stuck *)
+Definition w_first := w_state ST_ACTIVE 4 [w_logon; w_app 2; w_app 3].
+Definition w_second := fst (process_resend w_all (dec 2) (dec 0) w_first).
+Lemma second_request_refuted :
+  pristine w_first /\ resend_correct w_all w_first (dec 2) (dec 0)
+  /\ journal_ok w_second /\ cstate w_second = ST_ACTIVE
+  /\ classes_of w_all w_second (dec 2) (dec 0) 2 0 = (false, false, false, false, true, false)
+  /\ ~ resend_correct w_all w_second (dec 2) (dec 0)
+  /\ (let (s', x) := process_resend w_all (dec 2) (dec 0) w_second in
+      x = Some EDuplicatedTag /\ wire s' = wire w_second /\ nout s' = 2 /\ nout w_second = 4
+      /\ map r_seq (rows s') = [1] /\ cstate s' = ST_HANDLING).
+Proof.
+  assert (Hp : pristine w_first).
+  { unfold pristine. repeat split; try (vm_compute; congruence). repeat constructor. }
+  split; [exact Hp|]. split.
+  { apply (pristine_partial w_all w_first _ _ 2); try reflexivity; [left; reflexivity|exact Hp|vm_compute; split; congruence]. }
+  split. { unfold journal_ok. repeat split; try (vm_compute; congruence). repeat constructor; vm_compute; congruence. }
+  split; [reflexivity|]. split; [vm_compute; reflexivity|]. split.
+  - intros (W & _ & _ & Hn & _). vm_compute in Hn. discriminate.
+  - vm_compute. repeat split; reflexivity.
+Qed.
+
+(* D12c: BeginSeqNo beyond next_num_out: counter left advanced, state stuck *)
+Definition w_small := w_state ST_ACTIVE 3 [w_logon; w_app 2].
+Lemma begin_beyond_refuted :
+  pristine w_small
+  /\ classes_of w_all w_small (dec 5) (dec 0) 5 0 = (false, false, true, false, false, false)
+  /\ ~ resend_correct w_all w_small (dec 5) (dec 0)
+  /\ (let (s', x) := process_resend w_all (dec 5) (dec 0) w_small in
+      x = Some EAssertion /\ nout s' = 5 /\ sout s' = 4 /\ cstate s' = ST_HANDLING).
+Proof.
+  split. { unfold pristine. repeat split; try (vm_compute; congruence). repeat constructor. }
+  split; [vm_compute; reflexivity|]. split.
+  - intros (W & _ & _ & Hn & _). vm_compute in Hn. discriminate.
+  - vm_compute. repeat split; reflexivity.
+Qed.
+
+(* D12d: BeginSeqNo <= 0: nothing is sent or changed, but the state is stuck in RESENDREQ_HANDLING *)
+Lemma begin_nonpositive_refuted :
+  pristine w_small
+  /\ classes_of w_all w_small (dec 0) (dec 0) 0 0 = (false, true, false, false, false, false)
+  /\ ~ resend_correct w_all w_small (dec 0) (dec 0)
+  /\ (let (s', x) := process_resend w_all (dec 0) (dec 0) w_small in
+      x = Some EAssertion /\ nout s' = 3 /\ rows s' = rows w_small /\ cstate s' = ST_HANDLING).
+Proof.
+  split. { unfold pristine. repeat split; try (vm_compute; congruence). repeat constructor. }
+  split; [vm_compute; reflexivity|]. split.
+  - intros (W & _ & _ & _ & _ & Hc). vm_compute in Hc. discriminate.
+  - vm_compute. repeat split; reflexivity.
+Qed.
+
+(* BeginSeqNo = "x": ValueError swallowed after the state switch *)
+Lemma unparsable_refuted :
+  k_unparsable (Some [120%N]) (dec 0) = true
+  /\ ~ resend_correct w_all w_small (Some [120%N]) (dec 0)
+  /\ (let (s', x) := process_resend w_all (Some [120%N]) (dec 0) w_small in
+      x = Some EValue /\ cstate s' = ST_HANDLING).
+Proof.
+  split; [vm_compute; reflexivity|]. split.
+  - intros (W & _ & _ & _ & _ & Hc). vm_compute in Hc. discriminate.
+  - vm_compute. repeat split; reflexivity.
+Qed.
+
+(* D21: rows {1, 2, 4, 5}, next 6, ResendRequest(2, 0): the reply is 2, 4, 5 - number 3 is never covered *)
+Lemma chain_cons_inv J f lim a c fr rest : chain J f lim a c (fr :: rest) ->
+  r_seq fr = a /\ ((exists r, is_copy_of r fr /\ chain J f lim (a + 1) c rest)
+                   \/ (exists h, is_gap_fill fr a h /\ chain J f lim h c rest)).
+Proof.
+  inversion 1; subst.
+  - match goal with H : is_copy_of _ _ |- _ => pose proof H as (E & _) end. split; [lia|]. left. eauto.
+  - match goal with H : is_gap_fill _ _ _ |- _ => pose proof H as (E & _) end. split; [lia|]. right. eauto.
+Qed.
+
+Definition w_hole := w_state ST_ACTIVE 6 [w_logon; w_app 2; w_app 4; w_app 5].
+Lemma hole_refuted :
+  journal_ok w_hole /\ NoDup (map r_seq (rows w_hole))
+  /\ classes_of w_all w_hole (dec 2) (dec 0) 2 0 = (false, false, false, false, false, true)
+  /\ ~ resend_correct w_all w_hole (dec 2) (dec 0)
+  /\ (let (s', x) := process_resend w_all (dec 2) (dec 0) w_hole in
+      x = None /\ map r_seq (wire s') = [2; 4; 5] /\ map r_type (wire s') = [[68%N]; [68%N]; [68%N]]).
+Proof.
+  split. { unfold journal_ok. repeat split; try (vm_compute; congruence). repeat constructor; vm_compute; congruence. }
+  split. { vm_compute. repeat constructor; cbn; intuition congruence. }
+  split; [vm_compute; reflexivity|]. split.
+  - intros (W & Hw & Hr & _).
+    assert (E : requested_range w_hole (dec 2) (dec 0) = Some (2, 6)) by (vm_compute; reflexivity).
+    rewrite E in Hr. destruct Hr as [Hch _]. vm_compute in Hw. subst W.
+    apply chain_cons_inv in Hch as (_ & [(r & _ & Hch)|(h & (_ & Ht & _) & _)]).
+    + apply chain_cons_inv in Hch as (Hseq & _). vm_compute in Hseq. discriminate.
+    + vm_compute in Ht. discriminate.
+  - vm_compute. repeat split; reflexivity.
+Qed.
+
+(* In the pristine case nothing outside the range changes, but every journaled message inside the
+   range is REPLACED: application rows by their PossDup copies (new SendingTime, tags 43/122 added),
+   each run of session-level / declined rows by one GapFill row under the run's first number (the
+   other numbers of the run become holes).  The property text only protects rows outside the range,
+   so this is not a breach by itself - it is what makes the second request fail. *)
+Definition w_mixed := w_state ST_ACTIVE 6 [w_logon; w_app 2; w_hb 3; w_hb 4; w_app 5].
+Lemma in_range_rows_replaced :
+  pristine w_mixed /\ resend_correct w_all w_mixed (dec 2) (dec 0)
+  /\ (let s' := fst (process_resend w_all (dec 2) (dec 0) w_mixed) in
+      In w_logon (rows s') /\ ~ In (w_app 2) (rows s') /\ ~ In (w_hb 3) (rows s') /\ ~ In (w_hb 4) (rows s')
+      /\ map r_seq (rows s') = [1; 2; 3; 5]
+      /\ map (fun r => has_tag T_PossDupFlag (r_body r)) (rows s') = [false; true; false; true]
+      /\ map r_type (rows s') = [[65%N]; [68%N]; MT_SEQUENCERESET; [68%N]]).
+Proof.
+  assert (Hp : pristine w_mixed).
+  { unfold pristine. repeat split; try (vm_compute; congruence). repeat constructor. }
+  split; [exact Hp|]. split.
+  { apply (pristine_partial w_all w_mixed _ _ 2); try reflexivity; [left; reflexivity|exact Hp|vm_compute; split; congruence]. }
+  vm_compute. repeat split; try reflexivity; try (left; reflexivity); intuition discriminate.
+Qed.
+
+(* non-vacuity of the partial theorem: a journal with every kind of slot, a declining filter, a
+   missing suffix; all hypotheses hold and the reply is 2, GapFill(3->5), 5, GapFill(6->9) *)
+Definition w_filter (r : row) : bool := negb (r_seq r =? 6).
+Definition w_rich := w_state ST_AWAITING 9 [w_logon; w_app 2; w_hb 3; mkRow 4 MT_SEQUENCERESET (time_str 4) [(T_NewSeqNo, [53%N])]; w_app 5; w_app 6; w_hb 7].
+Lemma nonvacuous :
+  journal_ok w_rich /\ NoDup (map r_seq (rows w_rich)) /\ cstate w_rich = ST_AWAITING
+  /\ classes_of w_filter w_rich (dec 2) (dec 0) 2 0 = (false, false, false, false, false, false)
+  /\ (let s' := fst (process_resend w_filter (dec 2) (dec 0) w_rich) in
+      map r_seq (wire s') = [2; 3; 5; 6] /\ map r_type (wire s') = [[68%N]; MT_SEQUENCERESET; [68%N]; MT_SEQUENCERESET]
+      /\ map (fun r => get_tag T_NewSeqNo (r_body r)) (wire s') = [None; Some [53%N]; None; Some [57%N]]
+      /\ nout s' = 9 /\ cstate s' = ST_AWAITING).
+Proof.
+  split. { unfold journal_ok. repeat split; try (vm_compute; congruence). repeat constructor; vm_compute; congruence. }
+  split. { vm_compute. repeat constructor; cbn; intuition congruence. }
+  split; [reflexivity|]. split; [vm_compute; reflexivity|]. vm_compute. repeat split; reflexivity.
 Qed.
